@@ -196,6 +196,23 @@ def load_oracle(ctx, c):
     path = os.path.join(d, "matdyn.eig")
     write_matdyn(path, qs, thz, vecs)
     out = ctx.observe(evec_load, path, nq, npm, _bucket="C20/loader/crash", _case=c)
+    check_loaded(out, qs, thz, vecs, nq, npm, c)
+    # matdyn.x overwrites its output: the same path with the same nq and number of modes but new contents
+    qs = np.round(rng.uniform(-1, 1, (nq, 3)), 4)
+    thz = np.round(rng.uniform(0.0, 40.0, (nq, npm)), 6)
+    vecs = np.round(rng.uniform(-1, 1, (nq, npm, npm)), 6) + 1j * np.round(rng.uniform(-1, 1, (nq, npm, npm)), 6)
+    write_matdyn(path, qs, thz, vecs)
+    out = ctx.observe(evec_load, path, nq, npm, _bucket="C20/loader/crash", _case=c)
+    check_loaded(out, qs, thz, vecs, nq, npm, c, again=True)
+
+
+def check_loaded(out, qs, thz, vecs, nq, npm, c, again=False):
+    if again:
+        try:
+            check_loaded(out, qs, thz, vecs, nq, npm, c)
+        except PropertyViolation as v:
+            raise PropertyViolation("C20/loader/stale-after-rewrite", "after the file was rewritten: " + v.message, c)
+        return
     if len(out) != nq:
         raise PropertyViolation("C20/loader/count", "%d q-points returned" % len(out), c)
     for iq, (q, modes) in enumerate(out):
